@@ -335,7 +335,7 @@ func decodePathOrPolygon(data []byte, oid int) string {
 	}
 	closed := data[0] != 0
 	npts := int(i32(data, 1))
-	if len(data) < 5+npts*16 {
+	if npts < 0 || len(data) < 5+npts*16 {
 		return ""
 	}
 
